@@ -332,7 +332,9 @@ func checkC17ThroughVariants(arg string, o *Obs) error {
 			b[i], b[j] = b[j], b[i]
 		}
 		for i := range b {
-			b[i] = complementBase(b[i])
+			if b[i] != '-' && b[i] != '?' { // a gap stays a gap, an unknown stays unknown
+				b[i] = complementBase(b[i])
+			}
 		}
 		return string(b)
 	}
@@ -345,11 +347,12 @@ func checkC17ThroughVariants(arg string, o *Obs) error {
 	m := MsaCase{RefID: "ref", RefAt: 0, Layout: plainLayout()}
 	m.Rows = append(m.Rows, FaRec{ID: "ref", Seq: ref})
 	n := 0
-	for i := 0; i < 15; i++ {
-		for j := 0; j < 15; j++ {
-			for k := 0; k < 15; k++ {
-				q := string([]byte{iupac15[i], iupac15[j], iupac15[k]})
-				m.Rows = append(m.Rows, FaRec{ID: fmt.Sprintf("q%d_%s", n, q), Seq: "CC" + place("ATG"+prevQry+q+"GCT"+"TAA") + "CC"})
+	// all 17 alignment symbols: a gap or '?' inside the codon makes it untranslatable (X), it is not an N
+	for i := 0; i < 17; i++ {
+		for j := 0; j < 17; j++ {
+			for k := 0; k < 17; k++ {
+				q := string([]byte{alpha17[i], alpha17[j], alpha17[k]})
+				m.Rows = append(m.Rows, FaRec{ID: fmt.Sprintf("q%d_%s", n, strings.NewReplacer("-", "gap", "?", "unk").Replace(q)), Seq: "CC" + place("ATG"+prevQry+q+"GCT"+"TAA") + "CC"})
 				n++
 			}
 		}
